@@ -196,6 +196,9 @@ class OpsMixin:
             return True if not conj else Sym(z3.And(*conj), "bool")
         if isinstance(a, Ref) and isinstance(b, Ref) and a.id == b.id:
             return True
+        if isinstance(a, Ref) and isinstance(b, Ref) and isinstance(st.get(a), HObj) and isinstance(st.get(b), HObj):
+            # two distinct abstract instances: equality taken as identity (assumption A-EQ)
+            return False
         if (isinstance(a, Ref) and isinstance(b, Sym) and b.k == "obj") or (isinstance(b, Ref) and isinstance(a, Sym) and a.k == "obj"):
             # heap object vs opaque value: equality taken as identity (assumption A-EQ)
             return Sym(to_term(a, "obj") == to_term(b, "obj"), "bool")
@@ -488,7 +491,19 @@ class OpsMixin:
 
     def closure_of_function(self, fn):
         from .extract import function_ast
+        is_cm = False
+        if getattr(fn, "__wrapped__", None) is not None and getattr(fn.__code__, "co_filename", "").endswith("contextlib.py"):
+            # @contextmanager: the generator function is the real code; entering runs it up to the yield
+            fn = fn.__wrapped__
+            is_cm = True
         node, module = function_ast(fn)
+        if is_cm:
+            c = Closure(node, module, [], fn.__qualname__)
+            c.live = fn
+            c.defaults = list(fn.__defaults__ or ())
+            c.kwdefaults = dict(fn.__kwdefaults__ or {})
+            c.contextmanager = True
+            return c
         if fn.__closure__:
             # closure cells of a live function: expose as an extra frame is not possible
             # statically; bind free variables as host values at call time
@@ -612,6 +627,9 @@ class OpsMixin:
                 if isinstance(sub, ast.Nonlocal):
                     nonlocals.update(sub.names)
         fr = Frame(fid, list(clo.cells), clo.module, clo.qualname, nonlocals, fn_node=fnode)
+        if getattr(clo, "contextmanager", False):
+            from .stmts import CMGen
+            return [(st, CMGen(clo, fr))]
         is_gen = isinstance(fnode, (ast.FunctionDef, ast.AsyncFunctionDef)) and self.is_generator(fnode)
         if is_gen and getattr(self, "depth", 0) > 0:
             return self.call_generator(st, clo, fr, node)
